@@ -28,10 +28,12 @@ fn main() {
     if prop == "decode-worker" { codec::worker_main(); return; }
     if prop == "dump-apply" {
         // debugging aid: apply a v1 update (hex) to a fresh document and print what the checks look at
-        let u = model::unhex(&args.get(2).cloned().unwrap_or_default());
         let d = sim::Replica::new(9, sim::DocCfg::default());
-        let r = d.apply_v1(&u);
-        println!("apply: {:?}\npublic: {}\ninternal: {}\npending: {}", r, sim::public_dump(&d.doc), sim::internal_dump(&sim::store_dump(&d.doc)), { use yrs::{ReadTxn, Transact}; d.doc.transact().has_missing_updates() });
+        for a in args.iter().skip(2) {
+            let u = model::unhex(a);
+            let r = d.apply_v1(&u);
+            println!("apply: {:?}\npublic: {}\ninternal: {}\npending: {}", r, sim::public_dump(&d.doc), sim::internal_dump(&sim::store_dump(&d.doc)), { use yrs::{ReadTxn, Transact}; d.doc.transact().has_missing_updates() });
+        }
         return;
     }
     let mut tier = "quick".to_string();
